@@ -204,7 +204,8 @@ Fixpoint decode_conn (nev : nat) (l : list Z) : option (list (list grant * list 
      bounded   : at most `max` tasks in flight
      released  : when a live connection asks for exactly one room that nobody uses (no task in flight
                  for it, not waiting in the inbox of a live connection) and fewer than `max` rooms are
-                 in use, it gets it at once — in particular what an ended connection held is free again *)
+                 in use, it gets it at once — in particular what waited in the channel of a connection
+                 that ended is free again *)
 Record csp := { cs_inbox : list (N * list N); cs_ended : list N; cs_tasks : list (N * N) }.
 Definition csp0 : csp := {| cs_inbox := []; cs_ended := []; cs_tasks := [] |}.
 Definition inbox_of (s : csp) (c : N) : list N :=
@@ -240,11 +241,11 @@ Definition spec_conn (max : nat) (es : list cev) (obs : list Z) : bool :=
   | None => false
   end.
 
-(* known classes at connection level, by their cause:
+(* known class at connection level, by its cause:
    class 1 (K1 reached without any misbehaving caller): a connection ends while one of its room
            tasks is still running — cleanup unlocks the room, the task will unlock it again.
-   class 2 (K2, grants lost at connection end): a connection ends while a grant it has not taken
-           yet sits in its lock channel — nobody will ever release that room. *)
+   (class 2, grants lost at connection end, was repaired by 2487a5d: the end of a connection now
+    closes and drains its lock channel; it is no longer a class.) *)
 Fixpoint known_conn_from (x : cst) (es : list cev) : list Z :=
   match es with
   | [] => []
@@ -252,8 +253,7 @@ Fixpoint known_conn_from (x : cst) (es : list cev) : list Z :=
       let here := match e with
                   | CEnd c => let cn := find_conn (c_conns x) c in
                               if cn_ended cn then [] else
-                              (match cn_tasks cn with [] => [] | _ => [1%Z] end) ++
-                              (match cn_inbox cn with [] => [] | _ => [2%Z] end)
+                              match cn_tasks cn with [] => [] | _ => [1%Z] end
                   | _ => []
                   end in
       here ++ known_conn_from (fst (fst (cstep x e))) tl
